@@ -170,11 +170,28 @@ def compare_reflection(chk, w, out0, outr, L, desc, wit, noise_free):
         ref_ids = set(t.id for t in w.all_transcripts())
         m0 = model_view(o0.models(), L, ref_ids)
         m1 = model_view(o1.models(), None, ref_ids)
-        if m0 != m1:
-            only0 = list((m0 - m1).elements())[:2]
-            only1 = list((m1 - m0).elements())[:2]
+        only0 = list((m0 - m1).elements())
+        only1 = list((m1 - m0).elements())
+        # unspliced novel models end at the polyA / polyT position of their reads: the 1-2 bp asymmetry of those positions (known finding of
+        # the read-level comparison) shows as a 3' end that differs by at most 2 bp between the mirror images
+        tail_pairs = {}
+        for x in list(only0):
+            if len(x[2]) != 1 or not x[3].startswith("novel"):
+                continue
+            for y in only1:
+                if y[:2] == x[:2] and len(y[2]) == 1 and y[3] == x[3] and y[4] == x[4]:
+                    five0, three0 = (x[2][0][0], x[2][0][1]) if x[1] == "+" else (x[2][0][1], x[2][0][0])
+                    five1, three1 = (y[2][0][0], y[2][0][1]) if y[1] == "+" else (y[2][0][1], y[2][0][0])
+                    if five0 == five1 and 0 < abs(three0 - three1) <= 2:
+                        only0.remove(x)
+                        only1.remove(y)
+                        tail_pairs[(x[0], x[1], x[2])] = (y[0], y[1], y[2])
+                        chk.violation("reflection:transcript-models-differ:unspliced-novel-3prime-end-differs-by-at-most-2",
+                                      "%s: unspliced novel model %s %s %s in the mirrored original, %s in the reflected run" % (desc, x[0], x[1], x[2], y[2]), wit)
+                        break
+        if only0 or only1:
             chk.violation("reflection:transcript-models-differ", "%s: models only in mirrored original: %s; only in reflected run: %s" %
-                          (desc, [(x[0], x[1], x[2][:2], x[3]) for x in only0], [(x[0], x[1], x[2][:2], x[3]) for x in only1]), wit)
+                          (desc, [(x[0], x[1], x[2][:2], x[3]) for x in only0[:2]], [(x[0], x[1], x[2][:2], x[3]) for x in only1[:2]]), wit)
         else:
             # model counts by structure
             def counts_by_structure(o, Lx):
@@ -188,7 +205,8 @@ def compare_reflection(chk, w, out0, outr, L, desc, wit, noise_free):
                         Lc = Lx[t["chr"]]
                         ex = sorted((Lc + 1 - e, Lc + 1 - s) for s, e in ex)
                         strand = FLIP[strand]
-                    res[(t["chr"], strand, tuple(ex))] = c.get(tid, 0.0)
+                    k = (t["chr"], strand, tuple(ex))
+                    res[tail_pairs.get(k, k)] = c.get(tid, 0.0)
                 return res
             c0, c1 = counts_by_structure(o0, L), counts_by_structure(o1, None)
             if c0 != c1:
@@ -200,7 +218,7 @@ def make_world(seed, kind):
     if kind == "events":
         return c14.event_world(seed, twins=False), False      # exact positional ties are outside the quantifier of C11
     if kind == "noise-free":
-        w = world2.rich_world(seed, n_chroms=3, genes_per_chrom=3, reads_per_t=0, hidden_cov=0, multimappers=False, unmapped=0, extra_len=60000)
+        w = world2.rich_world(seed, n_chroms=3, genes_per_chrom=3, reads_per_t=0, hidden_cov=0, multimappers=False, unmapped=0, extra_len=100000)
         rng = w.rng
         # unannotated isoforms whose first (last) exon begins (ends) in the middle of an intron of the annotated isoform, on both strands:
         # the left-hand and the right-hand version are mirror images of each other
@@ -263,6 +281,7 @@ def make_world(seed, kind):
                 w.genes.append(g)
                 p += 3000 + 2500
         zoo_from = len(w.genes)
+        thin = []
         for g in w.genes:
             for t in g.transcripts:
                 for _ in range(5):
@@ -271,7 +290,34 @@ def make_world(seed, kind):
             for t in g.hidden:
                 for _ in range(10 if t.kind == "alt-terminal-exon-inside-intron" else 6):
                     w.read_from_transcript(t, mode="full", jitter=0, polya=True, flag=rng.choice((0, 16)))
+        # unannotated three-exon transcripts seen by only two full-length reads (too few to be reported) plus unspliced 3' fragments with a
+        # tail lying inside their 3'-terminal exon (on both strands; the runs on this world report novel unspliced transcripts), and
+        # free-standing unspliced tailed loci of both strands
+        for ci, chrom in enumerate(w.chrom_order):
+            p = max([g.end for g in w.genes if g.chrom == chrom] + [1000]) + 2500
+            for k, (strand, n_fl) in enumerate((("+", 2), ("-", 2), ("+", 1), ("-", 1))):
+                if p + 9000 > w.chrom_len(chrom):
+                    break
+                ex = [(p, p + 420 + 17 * k), (p + 1100, p + 1350), (p + 2100, p + 2560 + 13 * k)]
+                g = Gene("THIN%d_%d" % (ci + 1, k + 1), chrom, strand)
+                g.hidden.append(Transcript(g.id + ".h1", g.id, chrom, strand, ex, False, "thin-novel-with-3prime-fragments"))
+                for intr in g.hidden[0].introns:
+                    w.plant_sites(chrom, intr, strand)
+                thin.append(g)
+                tail = {"polya": 30} if strand == "+" else {"polyt": 30, "flag": 16}
+                for _ in range(n_fl):      # fewer than any data type's minimal support of a novel isoform needs (nanopore 3, pacbio 2)
+                    w.make_read(chrom, list(ex), truth={"src": g.id + ".h1", "class": "thin-novel-full-length"}, **tail)
+                for j in range(3 + k % 2):
+                    frag = [(ex[2][0] + 60 + 25 * j, ex[2][1])] if strand == "+" else [(ex[0][0], ex[0][1] - 60 - 25 * j)]
+                    w.make_read(chrom, frag, truth={"class": "unspliced-3prime-fragment-of-thin-novel"}, **tail)
+                # free-standing unspliced locus
+                q = p + 4200
+                for j in range(5):
+                    frag = [(q + 11 * j, q + 700)] if strand == "+" else [(q, q + 700 - 11 * j)]
+                    w.make_read(chrom, frag, truth={"class": "unspliced-tailed-novel"}, **tail)
+                p += 4200 + 700 + 2500
         # the zoo loci that contain no exact positional tie (they bring their own error-free reads)
+        w.genes += thin
         world2.add_zoo(w, ("ambiguous_only", "contested", "intronic", "apa", "same_coords"))
         return w, True
     w = world2.rich_world(seed, n_chroms=3, genes_per_chrom=3, reads_per_t=5, hidden_cov=5, multimappers=False, unmapped=1,
@@ -305,6 +351,8 @@ def run(chk, scratch):
         pipeline.write_world(wr, dr)
         variants.append(("reflected", dr, None))
         extra = ["--count_exons", "--check_canonical"]
+        if kind == "noise-free":
+            extra += ["--report_novel_unspliced", "true"]
 
         def one(v):
             name, dd, k = v
